@@ -501,18 +501,14 @@ func exemptZone(s encSpec, d []byte, pos int, x byte) string {
 
 // ------------------------------------------------------------------ exec
 
+// class of seMDCReader.Close: the three failure causes ("error during reading", "MDC packet not found",
+// "hash mismatch") are all errors.SignatureError and differ only in their text → one class
 func mdcClass(err error) string {
 	if err == nil {
 		return "ok"
 	}
-	s := err.Error()
-	switch {
-	case strings.Contains(s, "error during reading"):
-		return "reading"
-	case strings.Contains(s, "MDC packet not found"):
-		return "notfound"
-	case strings.Contains(s, "hash mismatch"):
-		return "mismatch"
+	if _, ok := err.(pgperr.SignatureError); ok {
+		return "sigerr"
 	}
 	return "other"
 }
